@@ -19,3 +19,10 @@ Proof. intros n. unfold doc_level. split_ifs; lia. Qed.
 
 Theorem parameters_separate_iff_level_le_0_proof : parameters_separate_iff_level_le_0.
 Proof. intros c. unfold gen_level_parameters. split_ifs; lia. Qed.
+
+Theorem options_default_off_proof : options_default_off.
+Proof. split; vm_compute; reflexivity. Qed.
+Theorem step_phases_as_modelled_proof : step_phases_as_modelled.
+Proof. vm_compute. reflexivity. Qed.
+Theorem validation_reports_and_raises_together_proof : validation_reports_and_raises_together.
+Proof. repeat split; vm_compute; reflexivity. Qed.
